@@ -37,9 +37,11 @@
 //     params / values / statistics / optimum trial bit-identical between pool sizes.
 //
 //  FIT <id> model=<..> threads=<1|2|4|16> n=<samples> features=<selected features or -> maxrel=<%a> result=<same|diff> [affinity=<cpus>]
-//     full fit() of linear models / gboost with g_max_threads = 1, 2, 4, 16 (dataset pool and tune pool of that size); compared
-//     with the 1-thread fit: gboost selected features and number of weak learners equal, predictions within 1e-5 relative
-//     (|a-b| <= 1e-5 max(|a|,|b|,rms of the reference predictions)). thorough: repeated under restricted CPU affinity.
+//     full fit() of linear models / gboost with (dataset pool, tune pool) = (1,1) reference, (1,P) [dataset_pool=1: must be
+//     BIT-IDENTICAL to the reference] and (P,P), P = 2, 4, 16 [selected features, number of weak learners and tuning equal,
+//     predictions within 1e-5 relative: |a-b| <= 1e-5 max(|a|,|b|,rms of the reference predictions); a different tuning with
+//     validation errors within 1e-5 = result=tieflip; gboost differences are CAND lines, result=cand]. thorough: (P,P) repeated
+//     under restricted CPU affinity.
 //     NB: gboost::max_rounds has the domain [10, 1e6]: 10 rounds are used (the smallest admissible value).
 //
 //  TIEPROBE run=<i> threads=<t> features=<list> / TIEPROBE-SUMMARY distinct_feature_sets=<k>   (only on request, never FAIL)
